@@ -1097,7 +1097,7 @@ static std::vector<std::string> g_enum;
 
 static std::string gen(Rng& r, long i, const Args& a) {
   if (a.gets("mode", "mix") == "enum") return g_enum[(std::size_t)i % g_enum.size()];
-  long maxe = a.tier == "thorough" ? 4 : 4;
+  long maxe = a.tier == "thorough" ? 6 : 4;
   int k = (int)r.below(100);
   if (k < 8) return genSpan(r);
   std::string kind = k < 30 ? "map" : k < 55 ? "conv" : k < 78 ? "mdspan" : "mdarray";
